@@ -251,8 +251,9 @@ impl LineSymbolMap {
         // Check not overlapping:
         let not_overlapping = bl.windows(2).all(|win| {
             let [(ls, lb), (rs, _)] = win else { unreachable!() };
-            ls + lb.len() <= *rs
-        });
+            // (a line number read from disk may be anything: an overflowing block end overlaps everything)
+            ls.checked_add(lb.len()).is_some_and(|le| le <= *rs)
+        }) && bl.last().is_none_or(|(ls, lb)| ls.checked_add(lb.len()).is_some());
 
         match not_overlapping {
             true => {
@@ -284,7 +285,7 @@ impl LineSymbolMap {
                 // and then find the line index once it's found.
                 words.binary_search(&addr)
                     .ok()
-                    .map(|o| start + o)
+                    .map(|o| start.wrapping_add(o))
             })
     }
 
@@ -300,7 +301,7 @@ impl LineSymbolMap {
             .flat_map(|(i, words)| {
                 words.iter()
                     .enumerate()
-                    .map(move |(off, &addr)| (i + off, addr))
+                    .map(move |(off, &addr)| (i.wrapping_add(off), addr))
             })
     }
 }
@@ -443,7 +444,7 @@ struct SymbolData {
 impl SymbolData {
     /// Calculates the source range of this symbol, given the name of the label.
     fn span(&self, label: &str) -> Range<usize> {
-        self.src_start .. (self.src_start + label.len())
+        self.src_start .. self.src_start.saturating_add(label.len())
     }
 }
 
@@ -475,7 +476,7 @@ impl DebugSymbols {
         // B doesn't overlap with A because ObjectFile check
         a.line_map.0.extend({
             b.line_map.0.into_iter()
-                .map(|(k, v)| (k + lines, v))
+                .map(|(k, v)| (k.wrapping_add(lines), v))
         });
 
         a.src_info = SourceInfo::from_string(a.src_info.src + "\n" + &b.src_info.src);
@@ -1256,7 +1257,7 @@ impl ObjectFile {
 
                 // For every label in symbol table B:
                 for (label, mut b_sym_data) in label_map {
-                    b_sym_data.src_start += b_src_shift;
+                    b_sym_data.src_start = b_sym_data.src_start.saturating_add(b_src_shift);
                     match a_sym.label_map.entry(label) {
                         Entry::Occupied(mut e) => {
                             let &a_sym_data = e.get();
